@@ -274,11 +274,11 @@ NestShape ==
 
 AdvDeclared == cls = "adv" => AdvIsShort(DocBytes)
 
-\* Lemma on the two allocation models over every generated MsgPack input with an oversized count header: reserving only for
+\* Lemma on the two allocation models over every generated MsgPack input with an oversized count / length header: reserving only for
 \* elements that can be present stays inside the bound for every catalogue element size, reserving for the declared count does not.
 ElemSizes == {4, 24, 32, 176}
 PresizeLemma ==
-  (fmt = "msgpack" /\ Small /\ CountHeaderExceeds(DocBytes)) =>
+  (fmt = "msgpack" /\ Small /\ DeclaredExceeds(DocBytes)) =>
      LET n == Len(DocBytes) IN
      /\ \A s \in ElemSizes : AbstractPresize(65535, n, s) <= PeakBound(n)
      /\ DevPresize(65535, 176) > PeakBound(n)
